@@ -5,6 +5,8 @@ package checks
 // {nothing,value,tombstone} x every queried version x entry orders, against a ~40-line reference resolver.
 
 import (
+	"time"
+	"os"
 	"fmt"
 	"sort"
 	"strings"
@@ -211,8 +213,31 @@ func runC01(c *vlib.Ctx) {
 	for n := 2; n <= maxN; n++ {
 		var specs []dagSpec
 		enumDAGs(n, func(d dagSpec) { specs = append(specs, d) })
+		// n = 6 has 204000 DAGs x 729 placements; it is explored under a wall-clock budget in a fixed strided order
+		// (a deterministic permutation, so a prefix spans all shapes) and reported as capped when the budget ends.
+		var deadline time.Time
+		var done6, skipped6 int64
+		stride := 1
+		if n >= 6 {
+			budget := 45 * time.Minute
+			if v, err := time.ParseDuration(os.Getenv("VERIF_C01_N6_BUDGET")); err == nil {
+				budget = v
+			}
+			deadline = time.Now().Add(budget)
+			stride = 7919 // prime, coprime with len(specs)
+			for len(specs)%stride == 0 {
+				stride += 2
+			}
+		}
 		vlib.Par(len(specs), 16, func(si int) {
-			spec := specs[si]
+			spec := specs[(si*stride)%len(specs)]
+			if !deadline.IsZero() {
+				if time.Now().After(deadline) {
+					atomic.AddInt64(&skipped6, 1)
+					return
+				}
+				defer atomic.AddInt64(&done6, 1)
+			}
 			b, err := buildDAG(spec)
 			if err != nil {
 				c.Violate("harness:build:"+spec.String(), err.Error(), nil)
@@ -228,6 +253,10 @@ func runC01(c *vlib.Ctx) {
 			c01Resolver(c, b, synth, tk, &states)
 		})
 		c.Set(fmt.Sprintf("dags_n%d", n), len(specs))
+		if skipped6 > 0 {
+			c.Set(fmt.Sprintf("dags_n%d_explored", n), done6)
+			c.Cap(fmt.Sprintf("n=%d: wall-clock budget reached after %d of %d DAGs (strided order); all DAGs on <= %d nodes fully covered", n, done6, len(specs), n-1))
+		}
 	}
 	c.Sample(map[string]interface{}{"dag": "1<-[0] 2<-[0] 3<-[2] 4<-[1 2 3]", "placement": "node1=value node2=value node3=tombstone", "query": 4, "expect": "value written at node 1"})
 
